@@ -137,6 +137,8 @@ pub mod layout;
 pub mod opcode;
 pub mod tc;
 pub mod utility;
+#[cfg(feature = "verif-hooks")]
+pub mod verif_hooks;
 pub mod vm;
 pub mod watchdog;
 
